@@ -33,11 +33,9 @@ var validLeaves = []leafT{
 	{"extractTail-star", "type: extractTail\nkey: app\npattern: /*\nmaxLen: 100\ndestKey: vhost\n"},
 	{"extractTail-log", "type: extractTail\nkey: source\npattern: .log.[0-9A-Z]\nmaxLen: 30\ndestKey: task\n"},
 	{"mapValue", "type: mapValue\nkey: level\nmapping:\n  emergency: FATAL\n  warning: WARN\n  info: INFO\ndefault: UNKNOWN\n"},
-	{"mapValue-nodefault", "type: mapValue\nkey: level\nmapping:\n  info: INFO\n"},
 	{"parseTime", "type: parseTime\nkey: time\nerrorLabel: timeError\n"},
 	{"redactEmail", "type: redactEmail\nkey: log\nmetricLabel: redacted\n"},
 	{"replace", "type: replace\nkey: log\npattern: ^(P(OS|U)T \".*\".*params=.{145}).{15,}$\nreplacement: $1 ... (cut)\n"},
-	{"replace-empty", "type: replace\nkey: log\npattern: '[0-9]+'\nreplacement: ''\n"},
 	{"truncate", "type: truncate\nkey: log\nmaxLen: 180\nsuffix: ' ... (cut)'\n"},
 	{"truncate-1", "type: truncate\nkey: log\nmaxLen: 1\nsuffix: '~'\n"},
 	{"unescape", "type: unescape\nkey: log\n"},
